@@ -69,3 +69,12 @@ CLAIMED["C08"] = (
  "Terminated + Close(1006), and FIFO use of the pending queue. Does not decide behaviour over event histories beyond the static relation nor what reaches the peer.",
  COMMON_NOTE,
  "DESIGN.md section 5 C08")
+
+CLAIMED["C15"] = (
+ "exhaustiveness/table agreement over opcode constants, dominator-chain guards (checks dominate effects), path enumeration of verifyFrame/handleFrame, twin agreement of the message-level rules",
+ "Static necessary-condition analysis. Decides opcode exhaustiveness (reserved = complement of the declared opcodes, control = {8,9,10}, erroring default), that FIN/125 and "
+ "verifyFrame (RSV1-3, mask by role) dominate every effect of the frame handlers, that every decoded frame passes handleFrame before delivery in both the blocking and the "
+ "asynchronous reader, that a verification error in StateActive queues Close(1002) and leaves StateActive on every such path, that the three message-level rules exist "
+ "in both NextMessage and asyncNextMessage, and that the decoder bounds the declared length (0..max) before yielding a frame. Does not decide behaviour under every segmentation.",
+ COMMON_NOTE,
+ "DESIGN.md section 5 C15")
